@@ -321,6 +321,12 @@ def families(tier, ua):
                 if hs and (m != 'GET' and not thorough):
                     continue
                 yield 'E1.static', mk(ua, method=m, target=t, headers=hs)
+    # E1c hooked resources whose subclass delegates with super().on_*() positionally / by keyword / mixed
+    for t in ('/hooked/21', '/hooked/abc', '/hooked/deny', '/hooked/21/x', '/hooked/007/9', '/hooked/%C3%A9', '/hookedc/7',
+              '/hookedc/deny', '/hooked/', '/hooked/21/x/y'):
+        for m in ('GET', 'POST', 'PUT', 'DELETE', 'HEAD', 'OPTIONS'):
+            for sc in ((script(), script(**{'raise': ['error', 'HTTPConflict', {}], 'raise_at': 'late'})) if m in ('GET', 'PUT') else (script(),)):
+                yield 'E1.hooked', mk(ua, method=m, target=t, script_=sc)
     # E2 queries x keep_blank x csv
     for q in QUERIES:
         for keep in (False, True):
@@ -449,6 +455,16 @@ def families(tier, ua):
     for ck in COOKIES:
         for m in ('GET', 'OPTIONS', 'HEAD'):
             yield 'E5.cookies', mk(ua, method=m, target='/items', script_=script(cookies=ck))
+    # three competing sources of Set-Cookie lines (raw appended lines, managed set_cookie, managed unset_cookie) for the same
+    # and for different names, in every order of the calls: the ORDER of the lines decides which cookie survives
+    raw = [['append', 'Set-Cookie', 'session=upstream123; Path=/']]
+    raw2 = [['append', 'Set-Cookie', 'session=up1'], ['append', 'set-cookie', 'other=o; Path=/x'], ['append', 'Set-Cookie', 'session=up2']]
+    for r in ([], raw, raw2):
+        for ck in ([], [['unset', 'session', {}]], [['set', 'session', 'managed', {}]], [['set', 'session', 'm1', {}], ['unset', 'session', {}]],
+                   [['set', 'zzz', 'z', {}], ['set', 'aaa', 'a', {}], ['unset', 'session', {'path': '/'}]], [['set', 'other', 'm', {}]]):
+            for extra in ([], [['set', 'X-A', '1'], ['append', 'X-A', '2']]):
+                for m in ('GET', 'HEAD'):
+                    yield 'E5.cookie-sources', mk(ua, method=m, target='/items', script_=script(hdr_ops=r + extra, cookies=ck))
     for sc in (True,):
         for m in ('GET', 'POST', 'HEAD'):
             for p in ('/items', '/nope', '/sink/a'):
